@@ -90,12 +90,14 @@ EXPORT errno_t freopen_s(FILE *restrict *restrict newstreamptr,
     }
 
     if (unlikely(mode == NULL)) {
+        *newstreamptr = NULL;
         invoke_safe_str_constraint_handler("freopen_s: mode is null", NULL,
                                            ESNULLP);
         return ESNULLP;
     }
 
     if (unlikely(stream == NULL)) {
+        *newstreamptr = NULL;
         invoke_safe_str_constraint_handler("freopen_s: stream is null", NULL,
                                            ESNULLP);
         return ESNULLP;
